@@ -778,7 +778,7 @@ func runShard(prop string, seed int64, idx int, n int, slow int, realOpen, unawa
 	sh := &shard{f: f, prop: prop}
 	r := f.r
 	f.p = newPuppet(r)
-	for i := 0; i < 3; i++ {
+	for i := 0; i < 4; i++ {
 		f.vaccs = append(f.vaccs, f.g.Account())
 	}
 	f.kind = []string{"none", "pay"}[idx%2]
@@ -858,10 +858,22 @@ func runShard(prop string, seed int64, idx int, n int, slow int, realOpen, unawa
 			}
 			sh.execUpd(f.settlementCase(cur), false, doProbe)
 		case pick < w[3]:
-			sh.execUpd(f.vfundCase(cur, false), false, doProbe)
+			if r.Intn(3) == 0 {
+				if s.Phase != channel.Acting {
+					f.actingContext(r.Intn(3))
+					cur = f.snapshot().Current.State
+				}
+				sh.execUpd(f.vfundShape(cur), false, doProbe)
+			} else {
+				sh.execUpd(f.vfundCase(cur, false), false, doProbe)
+			}
 		case pick < w[4]:
-			k, vp := f.vsettleContext()
-			sh.execUpd(f.vsettleCase(f.snapshot().Current.State, k, vp, false), false, doProbe)
+			if r.Intn(3) == 0 {
+				sh.execUpd(f.vsettleShape(), false, doProbe)
+			} else {
+				k, vp := f.vsettleContext()
+				sh.execUpd(f.vsettleCase(f.snapshot().Current.State, k, vp, false), false, doProbe)
+			}
 		default:
 			if r.Intn(6) == 0 {
 				sh.execResp()
